@@ -43,7 +43,16 @@ def main():
     mod = importlib.import_module('props.' + pid.lower())
     ctx = Ctx(pid, tier, seed)
     if a.replay:
-        sys.exit(mod.replay(ctx, json.load(open(a.replay))))
+        rep = json.load(open(a.replay))
+        if 'case' not in rep:
+            # no failing input was found when this was written: the replay names what no longer checked
+            print(f'replay of {a.replay}: no failing input recorded; the following no longer checked:')
+            for b in rep.get('no_longer_checks', []):
+                print(' -', b.get('kind'), ':', json.dumps(b.get('detail'), default=str)[:1500])
+                if b.get('first'):
+                    print('   first disagreeing case:', json.dumps(b['first'], default=str)[:3000])
+            sys.exit(1)
+        sys.exit(mod.replay(ctx, rep))
     t0 = time.time()
     broken = []          # proof obligations / tie elements that no longer check
     # 1. guards
